@@ -641,3 +641,44 @@ def tls_retry_check(ch: Any, rule: str) -> int:
                      '%s: a TLS record that arrives in two TCP segments makes recv() raise SSLWantReadError, and the connection is torn down instead of being read again when the rest arrives'
                      % (problem or ''), line=t.lineno)
     return n
+
+
+def no_linger_check(ch: Any, rule: str) -> int:
+    """Nobody sets SO_LINGER on a connection's socket (expected 0 sites).  With a positive linger time close() BLOCKS in the
+    event-loop thread until the peer has taken the data (one slow reader stalls every connection of the worker); with linger
+    0 close() discards whatever the kernel has not sent yet and resets the connection (queued output is lost)."""
+    prog = ch.prog
+    n = 0
+    for fn in prog.all_functions('proxy'):
+        if fn.module.name.startswith(('proxy.plugin', 'proxy.testing')):
+            continue
+        for c in walk_no_nested(fn.node):
+            if isinstance(c, ast.Call) and isinstance(c.func, ast.Attribute) and c.func.attr == 'setsockopt' and any('SO_LINGER' in norm(a) for a in c.args):
+                n += 1
+                ch.bad(rule, fn, c, '%s sets SO_LINGER: a positive linger time makes close() block the single event-loop thread of the worker for up to that long per connection; a zero linger '
+                                   'time makes close() throw away output the kernel has not delivered yet and reset the connection' % fn.qualname)
+    # built-in positive example so that the matcher is exercised on every run
+    probe = ast.parse("s.setsockopt(socket.SOL_SOCKET, socket.SO_LINGER, struct.pack('ii', 1, 0))", mode='eval').body
+    assert isinstance(probe, ast.Call) and probe.func.attr == 'setsockopt' and any('SO_LINGER' in norm(a) for a in probe.args)   # type: ignore[attr-defined]
+    if n == 0:
+        ch.ok(rule, None, 'SO_LINGER', 'no setsockopt(SO_LINGER) in proxy/** (matcher verified on a built-in example)', module_rel='proxy/')
+    return n
+
+
+def recvbuf_tls_check(ch: Any, rule: str) -> None:
+    """The event loop polls the kernel socket; a TLS socket can hold decrypted bytes the kernel no longer knows about.  Each readiness
+    event is answered by ONE recv(bufsize) (nothing loops on SSLSocket.pending()), so bufsize must cover a whole TLS record (16 KiB):
+    otherwise the tail of a record larger than bufsize waits inside the SSL object for a readiness event that never comes."""
+    from ..consteval import ConstEval
+    prog = ch.prog
+    ce = ConstEval(prog)
+    m = prog.module('proxy.common.constants')
+    pending_loops = [fn.qualname for fn in prog.all_functions('proxy') if not fn.module.name.startswith(('proxy.plugin', 'proxy.testing'))
+                     and any(isinstance(c, ast.Call) and isinstance(c.func, ast.Attribute) and c.func.attr == 'pending' for c in walk_no_nested(fn.node))]
+    for name in ('DEFAULT_CLIENT_RECVBUF_SIZE', 'DEFAULT_SERVER_RECVBUF_SIZE'):
+        ent = m.ns.get(name)
+        v = ce.try_eval(m, ent[1]) if ent is not None and ent[0] == 'assign' else None
+        ok = isinstance(v, int) and (v >= 16384 or bool(pending_loops))
+        ch.check(bool(ok), rule, None, name, '%s = %s bytes >= one TLS record (16384)' % (name, v),
+                 '%s evaluates to %r, less than a TLS record (16384 bytes), and no receive path drains SSLSocket.pending(): a record carrying more plaintext than that is read only in part, '
+                 'the rest is never fetched and the exchange stalls until the idle timeout' % (name, v), module_rel='proxy/common/constants.py')
